@@ -249,7 +249,11 @@ type Obs struct {
 	SendErr   map[string]bool     `json:"senderr"`
 	Reopen    []string            `json:"reopen"`
 	ReopenErr bool                `json:"reopen_err"`
-	Anomaly   []string            `json:"anomaly,omitempty"`
+	// the same with a context that is already done: Reopen may refuse (error) but must not report success while
+	// it skipped nodes
+	ReopenDone    []string `json:"reopen_done_ctx"`
+	ReopenDoneErr bool     `json:"reopen_done_ctx_err"`
+	Anomaly       []string `json:"anomaly,omitempty"`
 }
 
 type sendPayload struct{ N int }
@@ -312,6 +316,18 @@ func (w *World) Observe() Obs {
 		}
 	}
 	sort.Strings(o.Reopen)
+	for k, ob := range w.objs {
+		before[k] = ob.n.Reopens.Load()
+	}
+	dctx, cancel := context.WithCancel(context.Background())
+	cancel()
+	o.ReopenDoneErr = w.b.Reopen(dctx) != nil
+	for k, ob := range w.objs {
+		if ob.n.Reopens.Load() > before[k] {
+			o.ReopenDone = append(o.ReopenDone, k)
+		}
+	}
+	sort.Strings(o.ReopenDone)
 	return o
 }
 
